@@ -53,7 +53,7 @@ def instances(tier, seed):
                     h = Hsym[n % len(Hsym)]
                 add(fam.with_horizon(s, h), Cfg('DC', N=N, M=M, degree=degree, scheme=scheme, grid=g))
                 n += 1
-    nrand = 10 if tier == 'quick' else 120
+    nrand = 10 if tier == 'quick' else 400
     for r in range(nrand):
         s = fam.random_dae(rng) if rng.random() < 0.6 else fam.random_ode(rng)
         degree = rng.choice([1, 2, 3, 4, 5])
